@@ -46,6 +46,7 @@ pub fn run(_args: &Args) -> i32 {
             ds.create_index(&[c], IndexType::BTree, None, &ScalarIndexParams::default(), true).await.unwrap();
         }
         let preds = [
+            "x <= 5 AND x > 1", "x < 5 AND x >= 1", "x > 1 AND x <= 5", "x >= 1 AND x < 5", "x < 5 AND x > 1", "x <= 5 AND x >= 1",
             "x != 5", "NOT (x = 5)", "x NOT IN (5)", "NOT (x = 5 OR x = 1)", "x = 5 OR NOT (x = 5)", "x NOT BETWEEN 2 AND 6",
             "b = false", "NOT b", "b IS NOT TRUE", "b IS TRUE", "b IS FALSE", "NOT (b IS TRUE)", "b <> true", "x IS NOT NULL", "NOT (x IS NULL)",
             "f = 0.1", "f < 0.1", "f = 16777217", "f >= 0", "f > 0", "f = 0", "f = 'NaN'::float", "f > 1e38", "f = CAST('NaN' AS FLOAT)",
